@@ -176,9 +176,7 @@ theorem decStructInt_declared (r : Row) (raw : List Nat) : Declared (decStructIn
 
 theorem decS16_declared (r : Row) (raw : List Nat) : Declared (decS16 r raw) := by
   unfold decS16
-  split
-  · simp [Declared]
-  · split <;> simp [Declared]
+  split <;> simp [Declared]
 
 theorem decF32_declared (r : Row) (raw : List Nat) : Declared (decF32 r raw) := by
   unfold decF32
